@@ -3,7 +3,8 @@
     Used (a) by AuthCheck.v to run the model on the cases the harness observed, (b) by AuthProofs.v to show that
     the hypotheses of the theorems can be met together ([toy_crypto_ok]) and as witness in the refutations.
 
-    It is a symbolic stand-in, not cryptography: a "ciphertext" is [unary key ++ unary nonce ++ plaintext], so
+    It is a symbolic stand-in, not cryptography: a "ciphertext" is
+    [unary key ++ unary sender ++ unary counter ++ plaintext], so
     decryption under another key fails, everything of that shape is an encryption under its key, and nothing is
     hidden. Name normalisation and the password check are finite tables. *)
 From Coq Require Import String Ascii.
@@ -38,13 +39,17 @@ Fixpoint sdrop (n : nat) (s : string) : string :=
   | _, _ => s
   end.
 
-Definition toy_encrypt (k n : N) (pt : bytes) : bytes := (unary k ++ unary n ++ pt)%string.
+Definition toy_encrypt (k : N) (n : N * N) (pt : bytes) : bytes :=
+  (unary k ++ unary (fst n) ++ unary (snd n) ++ pt)%string.
 
 Definition toy_decrypt (k : N) (c : bytes) : option bytes :=
   match strip_unary c with
   | Some (k', r) =>
       if N.of_nat k' =? k then
-        match strip_unary r with Some (_, pt) => Some pt | None => None end
+        match strip_unary r with
+        | Some (_, r2) => match strip_unary r2 with Some (_, pt) => Some pt | None => None end
+        | None => None
+        end
       else None
   | None => None
   end.
